@@ -19,6 +19,7 @@ class Fn:
         self.blocks = {}
         self.ctfe = False
         self._parsed = {}
+        self.debug = {}   # source variable name -> [locals] (from `debug x => _N;` lines)
 
     def block(self, n):
         if n not in self._parsed:
@@ -96,11 +97,21 @@ def parse_file(path):
                 c.blocks[0] = (["_0 = const %s;" % m.group(3)], "return;")
                 consts.setdefault(c.name, []).append(c)
                 continue
-            m = CONST_RE.match(line)
-            if m:
-                cur = Fn(m.group(1).strip(), line, [], m.group(2))
-                kind = "const"
-                continue
+            if re.match(r"^(?:pub )?(?:const|static) ", line) and line.rstrip().endswith(" = {"):
+                body = re.sub(r"^(?:pub )?(?:const|static) ", "", line.rstrip()[:-4])
+                # split `name: type` at the last ': ' outside <...>
+                depth, cut = 0, None
+                for i, ch in enumerate(body):
+                    if ch == "<":
+                        depth += 1
+                    elif ch == ">" and body[i - 1] != "-":
+                        depth -= 1
+                    elif ch == ":" and depth == 0 and body[i:i + 2] == ": " and body[i - 1] != ":":
+                        cut = i
+                if cut is not None:
+                    cur = Fn(body[:cut].strip(), line, [], body[cut + 2:])
+                    kind = "const"
+                    continue
             continue
         # inside an item
         if line == "}":
@@ -119,6 +130,10 @@ def parse_file(path):
             m = LET_RE.match(line)
             if m:
                 cur.locals[int(m.group(1))] = m.group(2)
+            else:
+                m = re.match(r"^\s*debug (\w+) => _(\d+);", line)
+                if m:
+                    cur.debug.setdefault(m.group(1), []).append(int(m.group(2)))
             continue
         s = line.strip()
         if s == "}":
